@@ -41,11 +41,24 @@ def lane(k):
         except queue.Empty:
             return
         pid = os.path.basename(d)[:3]
+        # the worktree's .git file points into /repo/.git, which is hidden inside the namespace:
+        # the change is applied and undone from outside, only the check runs inside
+        for f in ("rc.txt", "out.txt", "err.txt"):
+            try:
+                os.remove("%s/%s" % (root, f))
+            except OSError:
+                pass
+        a = sh("git -C %s apply --whitespace=nowarn %s/patch.diff" % (repo, d))
+        if a.returncode != 0:
+            rec = {"change": os.path.basename(d), "id": pid, "rc": -2, "violation_lines": 0, "first": [], "lane": k, "stderr_tail": "patch does not apply: " + a.stderr[-300:]}
+            with lock:
+                open(outp, "a").write(json.dumps(rec) + "\n")
+                print(json.dumps(rec)[:200], flush=True)
+            continue
         script = ("mount --bind %s /repo && mount --bind %s /verif && cd /verif && "
-                  "git -C /repo apply --whitespace=nowarn %s/patch.diff && "
-                  "(VERIF_JOBS=%s ./check %s --tier quick > /tmp/lanes/%d/out.txt 2> /tmp/lanes/%d/err.txt; echo $? > /tmp/lanes/%d/rc.txt); "
-                  "git -C /repo checkout -q -- .") % (repo, verif, d, jobs, pid, k, k, k)
+                  "(VERIF_JOBS=%s ./check %s --tier quick > /tmp/lanes/%d/out.txt 2> /tmp/lanes/%d/err.txt; echo $? > /tmp/lanes/%d/rc.txt)") % (repo, verif, jobs, pid, k, k, k)
         r = sh("unshare -m sh -c '%s'" % script)
+        sh("git -C %s checkout -q -- ." % repo)
         try:
             rc = int(open("%s/rc.txt" % root).read().strip())
             out = open("%s/out.txt" % root).read()
